@@ -32,9 +32,9 @@ PROFILES = {
 }
 
 
-def _trace_cfg():
+def _trace_cfg(extra_inv=()):
     return ("SPECIFICATION TraceSpec\nCONSTRAINT TraceOK\nCHECK_DEADLOCK FALSE\n" +
-            "".join("INVARIANT %s\n" % i for i in INVARIANTS))
+            "".join("INVARIANT %s\n" % i for i in tuple(INVARIANTS) + tuple(extra_inv)))
 
 
 def add_raises(rng, prog):
@@ -67,14 +67,14 @@ def execute(cases, quantum=None):
     return traces, meta
 
 
-def check_traces(ctx, prop, cases, traces, meta, label=""):
+def check_traces(ctx, prop, cases, traces, meta, label="", extra_inv=()):
     divs = []
     for i, r in enumerate(meta):
         if r["error"]:
             divs.append(Divergence(prop, "exception", "Build/Run", r["error"].split(":")[0] + ":" + r["error"].split(":")[1] if ":" in r["error"] else r["error"],
                                    r["error"][:200], extra={"case": _case(cases[i], r)}))
     ok = [i for i, r in enumerate(meta) if not r["error"]]
-    out = trace.validate("FloTrace", _trace_cfg(), SPEC_DIR, [traces[i] for i in ok], batch=ctx.pick(40, 100))
+    out = trace.validate("FloTrace", _trace_cfg(extra_inv), SPEC_DIR, [traces[i] for i in ok], batch=ctx.pick(40, 100))
     ctx.states += out.states
     ctx.transitions += out.generated
     ctx.add_validated(len(out.accepted))
@@ -100,7 +100,7 @@ def _case(case, r):
     return {"prog": prog, "envs": {str(k): v for k, v in envs.items()}, "ticks": ticks, "script": r.get("script", "")}
 
 
-def model_check(ctx, prop, cases, maxticks, nprogs, liveness=False):
+def model_check(ctx, prop, cases, maxticks, nprogs, liveness=False, extra_inv=(), require=()):
     # a seeded sample of the generated programs, biased to the smaller half (environment choices multiply states)
     byszie = sorted((c[0] for c in cases), key=lambda p: len(json.dumps(p)))
     progs = random.Random(ctx.seed).sample(byszie[: max(nprogs, len(byszie) // 2)], nprogs)
@@ -108,7 +108,7 @@ def model_check(ctx, prop, cases, maxticks, nprogs, liveness=False):
     with open(path, "w") as f:
         json.dump(progs, f)
     cfg = ("SPECIFICATION %s\nCONSTANTS\n  MaxTicks = %d\nVIEW View\nCHECK_DEADLOCK FALSE\n" % ("FairSpec" if liveness else "MCSpec", maxticks) +
-           "".join("INVARIANT %s\n" % i for i in INVARIANTS) + ("PROPERTY Terminates\n" if liveness else ""))
+           "".join("INVARIANT %s\n" % i for i in tuple(INVARIANTS) + tuple(extra_inv)) + ("PROPERTY Terminates\n" if liveness else ""))
     res = tlc.run("FloMC", cfg, spec_dir=SPEC_DIR, extra_env={"PROGS_FILE": path}, tag="flomc" + prop, timeout=ctx.pick(600, 3000))
     ctx.add_model(res, "FloMC/%s%s" % (prop, "/live" if liveness else ""), {"MaxTicks": maxticks, "programs": len(progs)})
     if not res.ok:
@@ -117,7 +117,7 @@ def model_check(ctx, prop, cases, maxticks, nprogs, liveness=False):
                                steps=[{"action": a} for a, s in res.trace][-30:]))
     else:
         tlc.require_coverage(res, ["StartRun", "Dispatch", "EndTick", "MCNext", "Sweep", "EndRun", "RunOp", "Yield", "EnterFrame",
-                                   "ExitFrame", "Segue", "PrecurWalk", "DoAct", "Interrupt"], "FloMC/" + prop)
+                                   "ExitFrame", "Segue", "PrecurWalk", "DoAct", "Interrupt"] + list(require), "FloMC/" + prop)
     return res
 
 
@@ -140,7 +140,8 @@ def generic(prop):
                 dout = check_traces(ctx, prop, dcases, dtraces, dmeta, " (decimal quantum %s s)" % float(q))
                 nontrivial += len(dout.accepted)
                 n += len(dcases)
-        model_check(ctx, prop, cases, ctx.pick(3, 4), ctx.pick(6, 20))
+        # (C07's programs carry every feature incl. four typed input shares: one tick less keeps the run in budget)
+        model_check(ctx, prop, cases, ctx.pick(2, 3) if prop == "C07" else ctx.pick(3, 4), ctx.pick(6, 20))
         if prop == "C03":
             model_check(ctx, prop, cases, 2, ctx.pick(3, 8), liveness=True)
         ctx.rule = ("seeded generated FloScript programs (%s) built and run by the real Builder/Skedder; a case counts when its whole "
@@ -156,7 +157,7 @@ def replay_case(ctx, prop):
     if not case:
         print(json.dumps(ctx.replay, indent=1)[:4000])
         return
-    c = (case["prog"], {int(k): [tuple(x) for x in v] for k, v in case["envs"].items()}, case["ticks"])
+    c = (gen.normalize(case["prog"]), {int(k): [tuple(x) for x in v] for k, v in case["envs"].items()}, case["ticks"])
     traces, meta = execute([c])
     print(meta[0]["script"])
     for e in traces[0][1:]:
